@@ -13,9 +13,12 @@ THEOREMS = ["QExPy.C06_wls_expansion", "QExPy.C06_wls_optimal", "QExPy.C06_wls_u
             "QExPy.C06_noise_free", "QExPy.C06_eff_var",
             "QExPy.C03_diff_correct"]
 RULE = ("seeded data sets (distinct x, more points than parameters; sigma_y none/common/per-point "
-        "spread x20; sigma_x none/common/per-point for exponential, Gaussian and three user models; "
-        "polynomial degrees 1-5; x-ranges whose bounds may coincide with data points; data passed as "
-        "lists, arrays, MeasurementArrays, XYDataSet, XYDataSet.fit, keywords, enum model) fitted by "
+        "spread x20; sigma_x none/common/per-point/per-point with some exact zeros/exactly one "
+        "non-zero/common with one element set to 0 afterwards, for exponential, Gaussian and three "
+        "user models; polynomial degrees 1-5; x-ranges whose bounds may coincide with data points; "
+        "30 % of the problems rescaled to other units, x and y independently by 1e-12..1e12; data "
+        "passed as lists, arrays, MeasurementArrays, XYDataSet (keywords or arrays carrying the "
+        "uncertainties), XYDataSet.fit, keywords, enum model, y as DerivedValues) fitted by "
         "the real library; the returned parameters/covariance are certified by the Lean driver "
         "against the proved optimality conditions; non-trivial = per-point weights unequal or "
         "sigma_x > 0; distinct by hash of the data set")
@@ -46,11 +49,29 @@ def gen_cases(ctx, n):
         cases.append(G.gen_case(ctx.rng, form=form))
     for d in range(1, 6):
         cases.append(G.gen_case(ctx.rng, family="polynomial", degree=d, sy="point"))
-    for fam in ("exponential", "gaussian", "custom:sine", "custom:growth", "custom:lorentz"):
+    fams = ("exponential", "gaussian", "custom:sine", "custom:growth", "custom:lorentz")
+    for k, fam in enumerate(fams):
         cases.append(G.gen_case(ctx.rng, family=fam, sx="point", noise_free=False))
         cases.append(G.gen_case(ctx.rng, family=fam, sx="common", noise_free=True))
+        # x-uncertainties some of which are exactly 0 (exactly known abscissae): every model with
+        # "some zeros", and in turn "exactly one non-zero" / "common, one element set to 0 later"
+        cases.append(G.gen_case(ctx.rng, family=fam, sx="zeros", noise_free=False))
+        cases.append(G.gen_case(ctx.rng, family=fam, sx=("one", "edit")[k % 2], noise_free=False,
+                                form=("marrays", "xyds", "xyds.fit", "lists")[k % 4]))
+        cases.append(G.gen_case(ctx.rng, family=fam, sx=("edit", "one")[k % 2], noise_free=False,
+                                form=("xyds.fit", "marrays", "arrays", "xyds")[k % 4]))
+    # the same problems in other units (x and y scaled independently by 1e-12 ... 1e12): the optimum,
+    # the effective variance (slope at the data point) and the certificate are unit-free
+    ext = [(1e-6, 1.0), (1e-12, 1e-12), (1e6, 1e-6), (1e-12, 1e12), (1e12, 1e6)]
+    for k, fam in enumerate(fams):
+        cases.append(G.gen_case(ctx.rng, family=fam, sx=("point", "common", "zeros")[k % 3],
+                                noise_free=(k == 3), units=ext[k]))
+        cases.append(G.gen_case(ctx.rng, family="polynomial", degree=k + 1, units=ext[-1 - k]))
     while len(cases) < n:
-        cases.append(G.gen_case(ctx.rng))
+        u = None
+        if ctx.rng.random() < 0.3:
+            u = (ctx.rng.choice(G.SCALES), ctx.rng.choice(G.SCALES))
+        cases.append(G.gen_case(ctx.rng, units=u))
     return cases
 
 
